@@ -79,7 +79,7 @@ def record(chk, seed, tool, tid):
     src = os.path.join(d, "plt")
     gamma.write_plotfile(src, ap, cfg_, values=flds.values)
     line = {"tid": tid, "tool": tool, "n1": n1, "n2": n2, "lim": lim, "mesh": mesh, "outcome": "ok", "grid": [], "glev": [], "hasglev": tool == "plate",
-            "seed": seed}
+            "counts": [], "seed": seed}
     before = alpha.tree_digest(src)
     try:
         with shims.pool_shim(shims.Scheduler(default="random", rng=rng)), shims.poison(-7.0), core.quiet():
@@ -120,6 +120,44 @@ def record(chk, seed, tool, tid):
     return line
 
 
+def record_pestle(chk, seed, tid):
+    """pestle on an extrusion of a random nested mesh (two cells per lattice cell: an even blocking factor) whose fields are the
+    INDICATORS of the levels: the integral of indicator l up to the limit, in units of lattice cells of level l."""
+    rng = random.Random(seed)
+    n1, n2, mesh = random_mesh(rng, 3)
+    lim = rng.randint(0, len(mesh) - 1)
+    axes = rng.choice([(0, 1, 2), (1, 2, 0), (2, 0, 1), (0, 2, 1), (1, 0, 2), (2, 1, 0)])
+    cfg_ = gamma.Config.draw(rng, ndims=3, payload="tame", dyadic=True)
+    ext0 = rng.choice([2, 4])
+    lat = lattice.Lattice(mesh, n1, n2, axes=axes, ndims=3, scale=2, ext0=ext0, ext_cut=rng.random() < 0.5)
+    names = ["ind%d" % l for l in range(len(mesh))]
+    special = {l + 1: (lambda lv, shape, l=l: np.full(shape, 1.0 if lv == l else 0.0)) for l in range(len(mesh))}
+    flds = lattice.Fields(lat, seed, payload="tame", special=special)
+    ap = lat.ap("A", names, files_of=lambda lv, b: rng.randint(1, 3), shuffle=lambda lv, f, v: rng.sample(v, len(v)))
+    d = chk.tmp_reuse()
+    os.makedirs(d)
+    src = os.path.join(d, "plt")
+    gamma.write_plotfile(src, ap, cfg_, values=flds.values)
+    line = {"tid": tid, "tool": "pestle", "n1": n1, "n2": n2, "lim": lim, "mesh": mesh, "outcome": "ok", "grid": [], "glev": [], "hasglev": False,
+            "counts": [], "seed": seed}
+    before = alpha.tree_digest(src)
+    try:
+        with shims.pool_shim(shims.Scheduler(default="random", rng=rng)), core.quiet():
+            from amr_kitchen import PlotfileCooker
+            from amr_kitchen.pestle import volume_integral
+            pck = PlotfileCooker(src, ghost=True)
+            for l in range(lim + 1):
+                got = float(volume_integral(pck, names[l], limit_level=lim))
+                dv = float(np.prod(gamma.level_dx(cfg_, 3, l)))
+                x = got / dv / (4.0 * ext0 * 2 ** l)        # 2 x 2 concrete cells per lattice cell, ext0 * 2**l cells along the extrusion
+                line["counts"].append(int(round(x)) if abs(x - round(x)) < 1e-6 else -1)
+    except Exception as e:
+        line["outcome"] = "%s: %s" % (type(e).__name__, str(e)[:120])
+    if alpha.tree_digest(src) != before:
+        line["outcome"] = "input-modified"
+    return line
+
+
 def validate(chk, lines, what):
     tf = os.path.join(chk.scratch, "covertrace_%s.ndjson" % what)
     with open(tf, "w") as f:
@@ -139,7 +177,7 @@ def validate(chk, lines, what):
 def phase(chk, tool, quick_n=40, thorough_n=400, seeds=None):
     n = quick_n if chk.tier == "quick" else thorough_n
     seeds = seeds or [chk.rng.randrange(1 << 30) for _ in range(n)]
-    lines = [record(chk, s, tool, k + 1) for k, s in enumerate(seeds)]
+    lines = [(record_pestle(chk, s, k + 1) if tool == "pestle" else record(chk, s, tool, k + 1)) for k, s in enumerate(seeds)]
     bad = {}
     for tid, clause in validate(chk, lines, tool):
         bad.setdefault(int(tid), []).append(clause)
@@ -152,13 +190,13 @@ def phase(chk, tool, quick_n=40, thorough_n=400, seeds=None):
             if any(c.startswith("MACHINERY") for c in cl):
                 raise core.MachineryError("CoverTrace: generated mesh of seed %d is not well-formed" % ln["seed"])
             chk.violation(sig, "recorded run of %s on a generated %d-level mesh (%d x %d level-0 cells, limit %d) is rejected by CoverTrace.tla: %s%s" % (
-                "mandoline's 2-D flattening" if tool == "plate" else "whip", len(ln["mesh"]), ln["n1"], ln["n2"], ln["lim"], ", ".join(sorted(cl)),
+                {"plate": "mandoline's 2-D flattening", "whip": "whip", "pestle": "pestle"}[tool], len(ln["mesh"]), ln["n1"], ln["n2"], ln["lim"], ", ".join(sorted(cl)),
                 " (%s)" % ln["outcome"] if ln["outcome"] != "ok" else ""),
                 {"phase_module": "covertrace", "tool": tool, "seed": ln["seed"], "sigs": sig})
 
 
 def replay(chk, s):
-    lines = [record(chk, s["seed"], s["tool"], 1)]
+    lines = [record_pestle(chk, s["seed"], 1) if s["tool"] == "pestle" else record(chk, s["seed"], s["tool"], 1)]
     chk.executed("replay")
     for tid, clause in validate(chk, lines, s["tool"]):
         chk.violation(s["sigs"], "recorded run rejected by CoverTrace.tla: %s" % clause, s)
